@@ -5,7 +5,7 @@ from pkgspec import SpecDB, enc_col, dec_col, col_view, mk, stream_name_valid
 import msidec
 
 INTS = [0, 1, -1, 2, 5, 7, 32767, -32767, 32768, -32768, 65535, 2**31 - 1, -2**31 + 1, -2**31]
-STRS = ["", "a", "b", "ab", "A", "é", "日本", "x y", "abc", "Zz", "shared", "q" * 12]
+STRS = ["", "a", "b", "ab", "A", "é", "日本", "x y", "abc", "Zz", "shared", "q" * 12, "\ufeffab", "\ufeff"]
 ASCII_ONLY = False      # set by a generator whose history switches the database to US-ASCII: only representable text is stored
 
 
@@ -17,13 +17,17 @@ def _rep(s):
 
 
 def schema_family(rng, kind=None):
-    kind = kind or rng.choice(["intkey", "composite", "strkey", "random", "intkey", "composite"])
+    kind = kind or rng.choice(["intkey", "composite", "strkey", "random", "intkey", "composite", "widerange"])
     if kind == "intkey":
         return [mk("K", "i16", pk=True), mk("V", ("str", 10), null=True), mk("N", "i32", null=True)]
     if kind == "composite":
         return [mk("A", "i16", pk=True), mk("B", ("str", 4), pk=True, null=True), mk("C", "i16", null=True)]
     if kind == "strkey":
         return [mk("S", ("str", 6), pk=True), mk("X", "i32", null=True, rng=(-5, 100))]
+    if kind == "widerange":
+        # the declared range is wider than the storage type: the type's own bounds must still be enforced
+        return [mk("K", "i16", pk=True, rng=(0, 100000)), mk("W", "i16", null=True, rng=(-40000, 40000)),
+                mk("D", "i32", null=True, rng=(-2**31 + 1, 2**31 - 1))]
     cols = []
     n = rng.randint(1, 5)
     for i in range(n):
@@ -52,6 +56,11 @@ def gen_value(rng, col, p_invalid=0.1):
         if col["range"]:
             lo, hi = max(lo, col["range"][0]), min(hi, col["range"][1])
         cands = [v for v in INTS + [3, 4, 6, 8, 9, 10] if lo <= v <= hi]
+        if col["range"] and rng.random() < 0.25:
+            # inside the declared range but possibly outside the storage type
+            wide = [v for v in (32768, 40000, 65537, -32768, -40000, 65536 + 7, -2**31, 2**31 - 1) if col["range"][0] <= v <= col["range"][1]]
+            if wide:
+                return rng.choice(wide)
         return rng.choice(cands) if cands else lo
     if col["enum"]:
         return rng.choice(col["enum"])
